@@ -168,6 +168,12 @@ func (rw *rewriter) run() {
 			}
 			imp.Path.Value = strconv.Quote(*modPath + "/zzverif/vsync")
 			imp.Name = id("sync")
+		case "sync/atomic":
+			if imp.Name != nil && imp.Name.Name != "atomic" {
+				fatalf("%s: renamed import of sync/atomic is not supported", rw.fname)
+			}
+			imp.Path.Value = strconv.Quote(*modPath + "/zzverif/vatomic")
+			imp.Name = id("atomic")
 		case "context":
 			rw.ctxName = "context"
 			if imp.Name != nil {
